@@ -382,8 +382,38 @@ def rule_lmnn_objective(repo, rep):
            '1 - reg: G = reg dfG + (1 - reg) df mapped through L, objective '
            '= (1 - reg) total_active + <L G, L>, and the returned gradient is '
            '2 L G (derivative of tr(L G L^T) for the symmetric G)')
-  f = repo.get_func('lmnn.LMNN._loss_grad')
-  rep.analysed(f)
+  f0 = repo.get_func('lmnn.LMNN._loss_grad')
+  rep.analysed(f0)
+  # roles from the returned triple (gradient built from G, objective,
+  # number of active constraints); df is the other matrix in G's definition
+  roles = {}
+  ret0 = [r for r in ast.walk(f0.node) if isinstance(r, ast.Return)]
+  if ret0 and isinstance(ret0[0].value, ast.Tuple) and \
+          len(ret0[0].value.elts) == 3:
+    e0, e1, e2 = ret0[0].value.elts
+    nm0 = [x.id for x in ast.walk(e0) if isinstance(x, ast.Name)]
+    if len(nm0) == 1:
+      roles[nm0[0]] = 'G'
+    if isinstance(e1, ast.Name):
+      roles[e1.id] = 'objective'
+    if isinstance(e2, ast.Name):
+      roles[e2.id] = 'total_active'
+  gname = [k for k, v in roles.items() if v == 'G']
+  if gname:
+    gd0 = [s_ for s_ in f0.node.body if isinstance(s_, ast.Assign) and
+           ast.unparse(s_.targets[0]) == gname[0]]
+    if gd0:
+      others = [x.id for x in ast.walk(gd0[0].value)
+                if isinstance(x, ast.Name) and x.id not in
+                ('dfG', 'reg', 'np', 'L', gname[0])]
+      if len(set(others)) == 1:
+        roles[others[0]] = 'df'
+
+  f = astutil.role_view(f0, roles)
+  if f is None:
+    rep.unknown(R, 'lmnn.LMNN._loss_grad', site(f0), 'roles %s cannot be '
+                'given canonical names without conflating variables' % roles)
+    return
   stm = [s for s in f.node.body if isinstance(s, (ast.Assign, ast.AugAssign))]
   reg = Rat.sym('reg')
   one = Rat.const(1)
@@ -446,8 +476,58 @@ def rule_lmnn_impostor_enumeration(repo, rep):
            'and compares the pair distance with the margin radius of the out '
            'point along the rows and of the in point along the columns; the '
            'returned index pairs are (in_inds[column], out_inds[row])')
-  f = repo.get_func('lmnn.LMNN._find_impostors')
-  rep.analysed(f)
+  f0 = repo.get_func('lmnn.LMNN._find_impostors')
+  rep.analysed(f0)
+  roles = {}
+  for n_ in ast.walk(f0.node):
+    # the list that collects the pairs
+    if isinstance(n_, ast.Call) and isinstance(n_.func, ast.Attribute) and \
+            n_.func.attr == 'append' and isinstance(n_.func.value, ast.Name) \
+            and n_.args and 'vstack' in ast.unparse(n_.args[0]):
+      roles[n_.func.value.id] = 'impostors'
+  dnames = set(ast.unparse(s_.targets[0]) for s_ in ast.walk(f0.node)
+               if isinstance(s_, ast.Assign) and isinstance(s_.value, ast.Call)
+               and canon(repo.dotted(f0.module, s_.value.func) or '') ==
+               canon('sklearn.metrics.euclidean_distances'))
+  rown, coln = set(), set()
+  for n_ in ast.walk(f0.node):
+    # the margin vector: what the block distances are compared with
+    if isinstance(n_, ast.Compare) and ast.unparse(n_.left) in dnames and \
+            len(n_.ops) == 1:
+      b_ = n_.comparators[0]
+      while isinstance(b_, ast.Subscript):
+        b_ = b_.value
+      if isinstance(b_, ast.Name):
+        roles[b_.id] = 'margin_radii'
+    # row / column index vectors of the violated entries
+    if isinstance(n_, ast.Assign) and isinstance(n_.targets[0], ast.Tuple) \
+            and len(n_.targets[0].elts) == 2 and \
+            isinstance(n_.value, ast.Call) and \
+            canon(repo.dotted(f0.module, n_.value.func) or '') == \
+            canon('numpy.nonzero') and n_.value.args and \
+            isinstance(n_.value.args[0], ast.Compare) and \
+            ast.unparse(n_.value.args[0].left) in dnames:
+      a_, b_ = n_.targets[0].elts
+      if isinstance(a_, ast.Name) and isinstance(b_, ast.Name):
+        rown.add(a_.id)
+        coln.add(b_.id)
+  for n_ in ast.walk(f0.node):
+    if isinstance(n_, ast.Assign) and isinstance(n_.targets[0], ast.Name) and \
+            isinstance(n_.value, ast.Call) and \
+            canon(repo.dotted(f0.module, n_.value.func) or '') == \
+            canon('numpy.hstack'):
+      nm = set(x.id for x in ast.walk(n_.value) if isinstance(x, ast.Name)
+               and x.id != 'np')
+      if nm and nm <= rown:
+        roles[n_.targets[0].id] = 'i'
+      elif nm and nm <= coln:
+        roles[n_.targets[0].id] = 'j'
+
+  f = astutil.role_view(f0, roles)
+  if f is None:
+    rep.unknown(R, 'LMNN._find_impostors', site(f0), 'roles %s cannot be '
+                'given canonical names without conflating variables' % roles)
+    return
   loops = [n for n in f.node.body if isinstance(n, ast.For)]
   if len(loops) != 1 or not isinstance(loops[0].target, ast.Name):
     rep.unknown(R, 'LMNN._find_impostors', site(f), 'class loop not found')
